@@ -212,6 +212,19 @@ def check(prop, tier, runs=None, workers=None, start=0, evidence=True):
     nondet = [r[0] for r in again["rows"] if first[r[0]] != r[2]]
     if nondet:
         raise core.HarnessError("non-deterministic replay of run indices %s" % nondet[:5])
+    # ... and once more in a fresh interpreter under another hash seed
+    import subprocess
+    env = dict(os.environ, PYTHONHASHSEED="random", VERIF_SEED=str(seed))
+    pr = subprocess.run([sys.executable, os.path.join(core.VERIF_DIR, "xsim_main.py"), "_digests", prop, tier,
+                         ",".join(str(i) for i in sample_idx)], env=env, stdout=subprocess.PIPE, stderr=subprocess.PIPE,
+                        timeout=CHUNK_WALL_LIMIT)
+    try:
+        fresh = json.loads(pr.stdout.decode().strip().splitlines()[-1])
+    except Exception:
+        raise core.HarnessError("fresh-interpreter determinism probe failed: %s" % pr.stderr.decode()[-500:])
+    nondet = [i for i in sample_idx if fresh.get(str(i)) != first[i]]
+    if nondet:
+        raise core.HarnessError("non-deterministic across interpreters: run indices %s" % nondet[:5])
     viol_lines = []
     replay_paths = []
     seen = set()
@@ -238,6 +251,11 @@ def check(prop, tier, runs=None, workers=None, start=0, evidence=True):
         print("violation (precheck) clause=%r site=%r detail=%r" % (v["clause"], v["site"], v.get("detail")))
     for ln in pre["lines"]:
         print(ln)
+    for fid in merged["known"]:
+        if not pre.get("info", {}).get(fid + ".printed"):
+            for f in core.findings_for(prop):
+                if f["id"] == fid:
+                    print("KNOWN-FINDING: property=%s %s %s" % (prop, f["id"], f["what"]))
     wall = time.time() - t0
     rows = merged["rows"]
     distinct_nt = len(set(r[1] for r in rows if r[3]))
@@ -258,7 +276,7 @@ def check(prop, tier, runs=None, workers=None, start=0, evidence=True):
         "counters": merged["counters"],
         "known_findings_hit": merged["known"],
         "batch_digest": merged["batch_digest"],
-        "determinism_sample": {"indices_rerun": len(sample_idx), "mismatches": 0},
+        "determinism_sample": {"indices_rerun_same_process": len(sample_idx), "indices_rerun_fresh_interpreter_other_hashseed": len(sample_idx), "mismatches": 0},
         "workers": workers,
         "run_index_range": [rows[0][0], rows[-1][0]] if rows else [],
         "xfab_file": os.path.join(os.path.realpath(core.xfab_src()), "xfab", "__init__.py"),
@@ -293,6 +311,12 @@ def main(argv):
         if argv and argv[0] == "replay":
             core.import_xfab()
             return replay(argv[1])
+        if argv and argv[0] == "_digests":
+            core.import_xfab()
+            prop, tier, idx = argv[1], argv[2], [int(x) for x in argv[3].split(",") if x]
+            r = run_many(prop, core.verif_seed(), tier, idx, 1)
+            print(json.dumps({str(x[0]): x[2] for x in r["rows"]}))
+            return 0
         if argv and argv[0] == "selftest":
             from . import selftest
             return selftest.main(argv[1:])
